@@ -18,7 +18,8 @@ PROPS["C27"] = dict(
     bounds="code length concrete per harness, contents fully symbolic: legacy code and new_raw_checked/new_raw classification for every "
            "length 0..=8; jump analysis (to_analysed) for every length 0..=8; EF00-prefixed strings of length 2..=8; EF01-prefixed "
            "strings of length 22, 23, 24; EIP-7702: all 2^160 addresses, all 2^184 strings of 23 bytes, all strings of length "
-           "0, 2, 3, 22, 24, 43; unwind = length + 2 (length + 35 for analysis)",
+           "0, 2, 3, 22, 24, 43; unwind = length + 2 (length + 35 for analysis); plus codes of 1..2 symbolic bytes followed by 32, 33 or 34 zero bytes "
+           "(tails that look like the analysis padding)",
     outside="code longer than 8 bytes (the accessors do not branch on length, the analysis walk does); EF00-prefixed strings that decode "
             "to an EOF container (>= 20 bytes: Eof::decode does not close under the cap, see NOTES_c27.md), hence Bytecode::Eof values; "
             "EF01-prefixed strings of lengths other than 2..=8, 22, 23, 24; Bytecode::new_analyzed (unsafe constructor) and "
@@ -57,6 +58,9 @@ PROPS["C27"] = dict(
              stubs_expected=_C27_KECCAK) for n in range(9)]
         + [H("c27::c27_analysed_hash_%d" % n, tier=("quick" if n <= 1 else "thorough"), flags=_C27_NOREACH, timeout=900, mem_gb=6,
              bounds="all codes of %d bytes; hash_slow after to_analysed" % n, stubs_expected=_C27_KECCAK) for n in range(9)]
+        + [H("c27::c27_zero_tail_%s" % t, tier=tr, flags=_C27_NOREACH, timeout=900, mem_gb=6,
+             bounds="%d symbolic head byte(s) followed by %d zero bytes (a tail that looks like the 33-byte analysis padding); len / original_byte_slice / padded length after to_analysed" % (k, z))
+           for (t, k, z, tr) in (("k1_z32", 1, 32, "quick"), ("k1_z33", 1, 33, "quick"), ("k1_z34", 1, 34, "thorough"), ("k2_z33", 2, 33, "thorough"))]
         + [H("c27::c27_twin_must_fail", tier="quick", expect_fail=True, timeout=600, mem_gb=4, bounds="vacuity twin of c27_raw_checked_4",
              stubs_expected=_C27_NOEOF)]
     ),
